@@ -1,8 +1,10 @@
 package main
 
 import (
+	"bytes"
 	"encoding/json"
 	"errors"
+	"fmt"
 	"os"
 	"regexp"
 	"strings"
@@ -64,8 +66,20 @@ func c18Run(s *c18Scn, segName string, enc *json.Encoder, mu *sync.Mutex) verdic
 	v := verdict{ID: s.ID, Variant: segName, OK: true, Nontrivial: true}
 	lineNo := 0
 	cli := &simdev.CLI{Prompts: map[string]string{"m": "r1# "}, Mode: "m", Banner: "hi\r\n", NoPrompt: true}
-	cli.Handler = func(c *simdev.CLI, _ string) string {
+	cli.Handler = func(c *simdev.CLI, line string) string {
 		c.NoPrompt = true
+
+		switch line {
+		case "pre-silent": // an earlier operation the device has nothing to say to
+			return ""
+		case "pre-first": // an earlier operation: the device says what it will say first in the operation under observation
+			if len(s.Segs) > 0 {
+				return c18Segs[s.Segs[0]]
+			}
+
+			return ""
+		}
+
 		lineNo++
 
 		if lineNo <= len(s.Segs) {
@@ -112,6 +126,9 @@ func c18Run(s *c18Scn, segName string, enc *json.Encoder, mu *sync.Mutex) verdic
 	var evMu sync.Mutex
 
 	fires := 0
+	inPrelude := false
+	spent := []int{}
+	reopenT0 := 0
 
 	var cbs []*generic.Callback
 
@@ -147,6 +164,17 @@ func c18Run(s *c18Scn, segName string, enc *json.Encoder, mu *sync.Mutex) verdic
 		}
 
 		cb, cerr := generic.NewCallback(func(dd *generic.Driver, arg string) error {
+			if inPrelude {
+				// the earlier operation: the callback's own function fails (once-callbacks that ran are noted)
+				evMu.Lock()
+				if c.Once {
+					spent = append(spent, k+1)
+				}
+				evMu.Unlock()
+
+				return errors.New("the callback's function failed")
+			}
+
 			evMu.Lock()
 			events = append(events, map[string]interface{}{"ev": "fire", "i": k + 1, "arg": chars(arg)})
 			fires++
@@ -175,9 +203,99 @@ func c18Run(s *c18Scn, segName string, enc *json.Encoder, mu *sync.Mutex) verdic
 			"once": c.Once, "complete": c.Complete, "reset": c.Reset})
 	}
 
+	drain := func() {
+		pipe.WaitDrained(time.Second)
+		time.Sleep(3 * time.Millisecond)
+
+		for {
+			b, _ := d.Channel.ReadAll()
+			if b == nil {
+				break
+			}
+		}
+	}
+
+	reopened := false
+
+	switch s.ID % 3 {
+	case 0:
+		if s.ID%2 == 0 {
+			// an earlier SESSION on the same driver: it is closed while its reader sits in a transport read, which comes back a
+			// little later with the peer's last words (a line full of triggers); the driver is opened again at once. The new
+			// session is greeted with the banner; nothing of the old one takes part in it.
+			pipe.Lock()
+			pipe.CloseBehaviour = "late"
+			pipe.LateOnClose = []byte("Password: 17 (yes/no)? [confirm] finished DONE #\r\n")
+			pipe.Unlock()
+
+			var rerr error
+
+			fin0, pan0 := withWatchdog(10*time.Second, func() {
+				_ = d.Close()
+
+				pipe.Lock()
+				t0r := len(pipe.Trace)
+				pipe.Unlock()
+
+				reopenT0 = t0r
+				rerr = d.Open()
+			})
+			if !fin0 || pan0 != nil || rerr != nil {
+				v.OK, v.Sig, v.Detail = false, "TOOL", fmt.Sprintf("close and open again: returned=%v panic=%v err=%v", fin0, pan0, rerr)
+
+				return v
+			}
+
+			pipe.Lock()
+			pipe.CloseBehaviour = "eof"
+			pipe.Unlock()
+
+			pipe.WaitDrained(time.Second)
+			time.Sleep(3 * time.Millisecond)
+
+			reopened = true
+		}
+	case 1:
+		// an earlier operation on the same driver that ended with a timeout (nothing it waited for ever came): it is over, it
+		// takes no part in the operation under observation
+		never, _ := generic.NewCallback(func(*generic.Driver, string) error { return nil }, opoptions.WithCallbackContains("never-printed-by-this-device"))
+
+		fin0, pan0 := withWatchdog(10*time.Second, func() { _, _ = d.SendWithCallbacks("pre-silent", []*generic.Callback{never}, 120*time.Millisecond) })
+		if !fin0 || pan0 != nil {
+			fail(&v, "C18:earlier-operation:hang-or-panic", "the earlier operation (no trigger, timeout): returned=%v panic=%v", fin0, pan0)
+
+			return v
+		}
+
+		time.Sleep(20 * time.Millisecond)
+		drain()
+	case 2:
+		// an earlier operation with the SAME callback list that failed in a callback's own function: a callback marked once
+		// that ran there has run
+		inPrelude = true
+
+		fin0, pan0 := withWatchdog(10*time.Second, func() { _, _ = d.SendWithCallbacks("pre-first", cbs, 120*time.Millisecond) })
+
+		inPrelude = false
+
+		if !fin0 || pan0 != nil {
+			fail(&v, "C18:earlier-operation:hang-or-panic", "the earlier operation (same list, failing callback function): returned=%v panic=%v", fin0, pan0)
+
+			return v
+		}
+
+		time.Sleep(20 * time.Millisecond)
+		drain()
+	}
+
 	pipe.Lock()
 	t0 := len(pipe.Trace)
 	pipe.Unlock()
+
+	if reopened {
+		// nothing was read since the driver was opened again: the operation sees the new session from its first byte
+		t0 = reopenT0
+	}
 
 	var res string
 
@@ -216,7 +334,7 @@ func c18Run(s *c18Scn, segName string, enc *json.Encoder, mu *sync.Mutex) verdic
 	}
 
 	mu.Lock()
-	_ = enc.Encode(map[string]interface{}{"ev": "reset", "t": s.ID, "cbs": cbJSON, "segs": s.Segs})
+	_ = enc.Encode(map[string]interface{}{"ev": "reset", "t": s.ID, "cbs": cbJSON, "segs": s.Segs, "spent": spent})
 
 	evMu.Lock()
 	for _, e := range events {
@@ -233,6 +351,47 @@ func c18Run(s *c18Scn, segName string, enc *json.Encoder, mu *sync.Mutex) verdic
 }
 
 func c18(args []string) error {
+	if len(args) > 0 && args[0] == "-child" {
+		// one scenario at a time in a process of its own (vh isolated c18): a panic in a library goroutine takes only this
+		// process down; the trace events travel with the verdict
+		mu := &sync.Mutex{}
+		segs := []string{"rand", "one", "whole"}
+
+		return childLoop(func(raw json.RawMessage, _ int) interface{} {
+			s := &c18Scn{}
+			if err := json.Unmarshal(raw, s); err != nil {
+				return map[string]interface{}{"ok": false, "toolerror": err.Error()}
+			}
+
+			sg := s.Seg
+			if sg == "" {
+				sg = segs[s.ID%3]
+			}
+
+			var buf bytes.Buffer
+
+			v := c18Run(s, sg, json.NewEncoder(&buf), mu)
+
+			var evs []json.RawMessage
+
+			for _, ln := range bytes.Split(bytes.TrimSpace(buf.Bytes()), []byte("\n")) {
+				if len(ln) > 0 {
+					evs = append(evs, json.RawMessage(append([]byte(nil), ln...)))
+				}
+			}
+
+			ex, _ := v.Extra.(map[string]interface{})
+			if ex == nil {
+				ex = map[string]interface{}{}
+			}
+
+			ex["trace"] = evs
+			v.Extra = ex
+
+			return v
+		})
+	}
+
 	out := "trace.ndjson"
 	if len(args) >= 2 && args[0] == "-out" {
 		out = args[1]
